@@ -72,6 +72,14 @@ def run_cases(prop, cases, want_model=True):
     r = run([harness_bin("ddv-gen"), "run", named, impl_p], timeout=7200)
     if r.returncode != 0:
         return None, None, "ddv-gen run failed: " + (r.stderr or "")[-800:]
+    # hand the convert_case oracle of each case to the property oracles
+    by_id = {c["id"]: c for c in cases}
+    for l in open(named):
+        l = l.strip()
+        if l:
+            j = json.loads(l)
+            if j.get("id") in by_id and "names" in j:
+                by_id[j["id"]]["names"] = j["names"]
     impl = {}
     for l in open(impl_p):
         l = l.strip()
@@ -145,6 +153,8 @@ def correspond_gen(prop):
                 v["case"] = slim(c)
                 v["impl"] = {k: af.get(k) for k in ("outcome", "stage", "kind", "names", "numbers", "site")}
                 res.spec_violations.append(v)
+        if prop == "C16":
+            res.spec_violations += oracles.check_groups_c16(cases, impl, model)
         res.distinct_nontrivial = len(seen)
         res.stats = stats
         res.rule = oracles.RULES.get(prop, "")
